@@ -202,6 +202,7 @@ pub fn gen(c: &Chain, cfg: &Cfg, m: &Menu, rng: &mut Rng, kind: &str) -> Option<
         "ugi_hooks" => exec("updater", "hub", json!({"k": "update_global_index", "hooks": 1 + rng.below(2)}), json!([])),
         "rew_swapdenom" => exec("owner", "reward", json!({"k": "update_swap_denom", "swap_denom": *rng.pick(&["usei", "ufor", "kusd"]), "is_add": rng.chance(2, 3)}), json!([])),
         "rew_swap" => exec("dispatcher", "reward", json!({"k": "swap_to_reward_denom"}), json!([])),
+        "disp_swapdenom" => exec("owner", "dispatcher", json!({"k": "update_swap_denom", "swap_denom": *rng.pick(&["usei", "ufor", "kusd"]), "is_add": rng.chance(3, 4)}), json!([])),
         "index_update" => exec("dispatcher", "reward", json!({"k": "update_global_index"}), json!([])),
         "mint_b" => exec("hub", "bsei", json!({"k": "mint", "recipient": u, "amount": 1 + rng.below(m.amax)}), json!([])),
         "burn_b" => exec("hub", "bsei", json!({"k": "burn", "amount": amount(rng, tokbal(c, "bsei", "hub"), m.amax)}), json!([])),
